@@ -54,6 +54,8 @@ def main():
             print(sid, "PATCH-FAILS", flush=True)
             continue
         props = sorted(P.CLAIMED) if allp else [meta["property"]]
+        if "--props" in args:
+            props = args[args.index("--props") + 1].split(",")
         entry = res.setdefault(sid, {"property": meta.get("property"), "checks": {}})
         try:
             for p in props:
